@@ -142,7 +142,12 @@ Definition interp (e : env) (x : str) : str := interp_aux e 0 x.
 (* the elements of a path-like value *)
 Definition elems (d : ascii) (x : str) : list str := filter nonempty (split_on d x).
 
+(* one element of the value: setup mode puts it first or last, an element that is already there being moved
+   rather than kept where it was (the code after the fix of D8; path_step_pinned is the pinned code, where
+   envAppend of a present element left it at its old position) *)
 Definition path_step (append fwd : bool) (np : list str) (x : str) : list str :=
+  if fwd then (if append then remove_str x np ++ [x] else x :: remove_str x np) else remove_str x np.
+Definition path_step_pinned (append fwd : bool) (np : list str) (x : str) : list str :=
   if fwd then (if append then np ++ [x] else x :: np) else remove_str x np.
 
 (* the new text of the variable, before interpolation *)
